@@ -59,6 +59,9 @@ Proof.
   pose proof (H S_limit_by) as H_limit_by; simpl in H_limit_by.
   pose proof (H S_distinct_on) as H_distinct_on; simpl in H_distinct_on.
   pose proof (H S_insert_or_replace) as H_insert_or_replace; simpl in H_insert_or_replace.
+  pose proof (H S_top) as H_top; simpl in H_top.
+  pose proof (H S_top_percent) as H_top_percent; simpl in H_top_percent.
+  pose proof (H S_top_with_ties) as H_top_with_ties; simpl in H_top_with_ties.
   destruct a, b; simpl in *; subst; reflexivity.
 Qed.
 
@@ -98,7 +101,8 @@ Ltac get_all H :=
   get H S_for_update_skip_locked; get H S_for_update_of; get H S_force_indexes; get H S_use_indexes; get H S_updates;
   get H S_columns; get H S_values; get H S_replace; get H S_select_into; get H S_subquery_count; get H S_foreign_table;
   get H S_mysql_rollup; get H S_hint; get H S_modifiers; get H S_final; get H S_sample; get H S_sample_offset;
-  get H S_limit_by; get H S_distinct_on; get H S_insert_or_replace.
+  get H S_limit_by; get H S_distinct_on; get H S_insert_or_replace; get H S_top; get H S_top_percent;
+  get H S_top_with_ties.
 Ltac rew_all := repeat match goal with E : ?a = ?b |- _ => rewrite E; clear E end.
 
 (* outcome of a call = f(slots in deps): same error, or results equal on the written slots *)
@@ -120,6 +124,7 @@ Proof.
            | |- context [let '(_, _) := ?e in _] => destruct e eqn:?
            | |- context [if ?e then _ else _] => destruct e eqn:?
            | |- context [match q_insert_table _ ?s with _ => _ end] => destruct (q_insert_table _ s) eqn:?
+           | |- context [match top_value ?v with _ => _ end] => destruct (top_value v) eqn:?
            | a : option (bool * bool * list string) |- _ => destruct a as [[[? ?] ?]|]
            end; try reflexivity;
     intros x Hx; destruct x; simpl in Hx; try discriminate; simpl; try reflexivity; try assumption;
